@@ -131,6 +131,61 @@ def gap_scan_problem(fn):
     return None
 
 
+def scan_exhaustion_problem(fn):
+    """`for n in range(...): if candidate(n) not in P: return` finds a free value only if at least |P|+1 distinct candidates are
+    tried (pigeonhole).  Count the candidates (range length plus single candidates tested before the loop) as a polynomial
+    in L = len(P) and require count >= L + 1.  Returns a description of the problem or None (also None when the loop is not
+    of this shape)."""
+    from sa.poly import Poly, of_expr
+
+    def L(e):
+        import copy
+
+        class R(ast.NodeTransformer):
+            def visit_Call(self, n):
+                if dotted(n.func) == "len" and len(n.args) == 1:
+                    return ast.Name(id="L", ctx=ast.Load())
+                return self.generic_visit(n)
+        return of_expr(R().visit(copy.deepcopy(e)))
+
+    for n in ast.walk(fn):
+        if not (isinstance(n, ast.For) and isinstance(n.iter, ast.Call) and dotted(n.iter.func) == "range"):
+            continue
+        if not any(isinstance(c, ast.Compare) and isinstance(c.ops[0], ast.NotIn) for c in ast.walk(n)):
+            continue
+        a = n.iter.args
+        if len(a) == 1:
+            lo, hi, step = Poly.const(0), L(a[0]), 1
+        elif len(a) == 2:
+            lo, hi, step = L(a[0]), L(a[1]), 1
+        else:
+            st = a[2]
+            sv = -st.operand.value if isinstance(st, ast.UnaryOp) and isinstance(st.op, ast.USub) and isinstance(st.operand, ast.Constant) else (
+                st.value if isinstance(st, ast.Constant) else None)
+            if sv not in (1, -1):
+                return None
+            lo, hi, step = L(a[0]), L(a[1]), sv
+        count = (hi - lo) if step == 1 else (lo - hi)
+        if "L" not in count.symbols():
+            continue  # the range does not depend on the population size: another idiom
+        # single candidates tested before the loop
+        pre = 0
+        for st in fn.body if hasattr(fn, "body") else []:
+            if st is n:
+                break
+            if isinstance(st, ast.If) and isinstance(st.test, ast.Compare) and isinstance(st.test.ops[0], ast.NotIn) and any(isinstance(x, ast.Return) for x in st.body):
+                pre += 1
+        need = Poly.sym("L") + Poly.const(1)
+        short = need - (count + Poly.const(pre))
+        if short.is_const() and (short.const_value() or 0) <= 0:
+            continue
+        if short.is_const():
+            return "the scan tries %r candidates for a population of L members (%d too few): when the only free value is not among them the " \
+                   "allocator falls through to its 'impossible' exit" % (count + Poly.const(pre), short.const_value())
+        return "the scan tries %r candidates for a population of L members; at least L+1 are needed" % (count + Poly.const(pre))
+    return None
+
+
 def idiom_len_plus_one(fn):
     for n in ast.walk(fn):
         if isinstance(n, ast.BinOp) and isinstance(n.op, ast.Add) and isinstance(n.right, ast.Constant) and n.right.value == 1 \
@@ -257,6 +312,8 @@ def run(ctx):
                 miss, (", found narrowing " + str(bad)) if bad else ""), file=f.file, line=f.line)
         elif not idi:
             ctx.violation("R6.2", key + ":idiom", "no recognised fresh-value idiom in the allocator", file=f.file, line=f.line)
+        elif scan_exhaustion_problem(f.node):
+            ctx.violation("R6.2", key + ":exhaustion", scan_exhaustion_problem(f.node), file=f.file, line=f.line)
         elif any("gap" in i or "enumerate" in i for i in idi) and gap_scan_problem(f.node):
             ctx.violation("R6.2", key + ":order", gap_scan_problem(f.node), file=f.file, line=f.line)
         elif not q.endswith(".max_shape_id") and _stale_returns(f):
